@@ -14,6 +14,7 @@ def step (st : DState) (line : String) : DState × String :=
   match (line.trimAscii.toString.splitOn " ") with
   | ["reset"] => ({}, "ok")
   | "funcs" :: rest => (st, OciModel.Driver.Funcs.drive rest)
+  | "wire" :: "init" :: imm :: _ => ({ st with mem := OciModel.Mem.init (imm == "1") }, "ok")
   | "mem" :: rest =>
     let (m, out) := OciModel.Driver.Mem.drive st.mem rest
     ({ st with mem := m }, out)
